@@ -1,7 +1,13 @@
 """C06 — broadcasting follows NumPy's rules and is symmetric, associative, idempotent.
 IMPL: index::broadcast_shape (2-ary and variadic), index::shape_broadcast_to / origin_axes / free_axes,
-index::broadcast_to, view::broadcast_to, view::broadcast_arrays.  ORACLE: numpy.broadcast_shapes / broadcast_to /
-broadcast_arrays (independent of the C++)."""
+index::broadcast_to, view::broadcast_to, view::broadcast_arrays, view::add.  ORACLE: numpy.broadcast_shapes /
+broadcast_to / broadcast_arrays (independent of the C++).
+
+Two harness families: harness/h_c06.cpp (run-time containers, exhaustive small scope over shapes) and the GENERATED
+mixed-kind matrix (harness/gen_kinds_c06.py + harness/c06_kinds.hpp): every pair / triple of shape container kinds
+(compile-time constant, clipped, std::array, vector, static_vector, fixed-size / hybrid ndarray, None) over a fixed
+table of shape pairs / triples plus a VERIF_SEED part, each case evaluating the clauses of the property (every order
+and grouping, with itself, with the result) with the NMTOOLS_VERIF hook events switched on."""
 import itertools, os, sys, random
 import numpy as np
 import runner
@@ -19,8 +25,21 @@ RULE = ('exhaustive: all ordered pairs and all ordered triples (thorough: triple
         'index::broadcast_to and view::broadcast_to with every element of the result read; all pairs + sampled triples through '
         'view::broadcast_arrays with every element of every result read (provenance data: operand k holds 1000k + flat id); '
         'mixed shape container kinds std::vector / std::array / nmtools_static_vector; random compatible and perturbed '
-        'families up to rank 8; 4- and 5-operand folds; zero-extent shapes off-domain against the model only. '
-        'non-trivial = operands differ in rank or in some aligned extent')
+        'families up to rank 8; 4- and 5-operand folds; zero-extent shapes (ranks <= 2, extents 0..2, a few triples and '
+        'broadcast_arrays) off-domain against the model AND NumPy. '
+        'KIND MATRIX (generated TUs, hooks on): kinds {constant tuple, clipped tuple (bounds with slack), std::array, vector, '
+        'static_vector, 1-d fixed_ndarray, 1-d hybrid_ndarray, None} for shapes and {ndarray_t with constant / clipped / '
+        'std::array / vector / static_vector shape, raw / nested std::array / fixed_ndarray, hybrid_ndarray, int} for arrays; '
+        'a fixed table of 19 shape pairs, 11 triples, 11 (source,target) pairs, 10 array pairs, 4 array triples (stretching 1s in '
+        'every position, rank extension on either side, equal shapes, scalars, incompatible ones); broadcast_shape(a,b): EVERY '
+        'ordered kind pair x every table pair, clauses ab ba aa bb a(ab) (ab)b (ba)a (ab)(ba); broadcast_shape of three: every '
+        'ordered kind triple (343) x table triples (quick: a rotating sixth, thorough: all), clauses = the variadic call in all 6 '
+        'operand orders + both groupings of all 6 orders; shape_broadcast_to / view::broadcast_to: every (source kind, target '
+        'kind) x table (quick: half); broadcast_arrays and add: every ordered array-kind pair x table (quick: a fifth), both '
+        'operand orders, add(x,x); broadcast_arrays of three arrays over mixed kind triples; + per VERIF_SEED 24 / 10 / 8+8 / '
+        '6 / 6 / 2 random cases (x5 thorough) with random kinds. A hook event (clipped clamp, static_vector overflow) while '
+        'an ACCEPTED clause is computed is part of the answer and therefore a difference. '
+        'non-trivial = operands differ in rank, in some aligned extent, or in kind')
 EXHAUSTIVE = {'quick': True, 'thorough': True}
 ANCHORS = {
     'NmVerif.bcRev/broadcastShape2': 'index::impl::broadcast_shape (broadcast_shape.hpp:37-180)',
@@ -31,23 +50,30 @@ ANCHORS = {
     'NmVerif.gather/broadcastToIndex': 'index::gather, index::broadcast_to (broadcast_to.hpp:307-330)',
     'NmVerif.broadcastToView': 'view::broadcast_to / view::broadcast_to_t::indices',
     'NmVerif.broadcastArraysViews': 'view::broadcast_arrays',
+    'NmVerif.BExpr.eval (driver op kexpr)': 'nests of index::broadcast_shape calls incl. the is_maybe overloads (broadcast_shape.hpp:186-245) and '
+                                            'meta::resolve_optype<broadcast_shape_t> (broadcast_shape.hpp:307-510) under every operand kind',
+    'NmVerif.sbtNoneClipped (driver op ksbt)': 'index::impl::shape_broadcast_to(none_t, bshape) (broadcast_to.hpp:36-75) with a clipped target',
+    'driver ops kbto / kbarr / kadd': 'view::broadcast_to, view::broadcast_arrays (index::broadcast_size), view::add (index::shape_ufunc) over the array kinds of utility/cast.hpp',
 }
 MANIFEST = dict(
-    text='Proof: Lean theorems over all shapes of any rank with positive extents: broadcast_shape (2-ary loop and variadic fold) succeeds iff the shapes are NumPy-compatible and then is the per-axis maximum; commutativity, associativity (Option/bind), idempotence, absorption, scalar identity; n-ary fold invariant under any permutation and any split/grouping of the operand list; shape_broadcast_to succeeds iff NumPy allows it; the offset-over-origin-axes index map of broadcast_to equals the NumPy element rule and stays in bounds; broadcast_arrays never fails after a successful broadcast_shape. Tied to the C++ by an exhaustive small-scope differential run (all pairs/triples of shapes, every element) and cross-checked against NumPy on every run.',
-    note='Lean kernel + propext/Classical.choice/Quot.sound; model hand-written (reversed-list recursion for the right-aligned loops), fidelity rests on the correspondence run; compile-time (constant/clipped) shape kinds are C09/C11, only run-time containers std::vector/std::array/static_vector here; positive extents as in the property (zero extents compared with the model only).',
+    text='Proof: Lean theorems over all shapes of any rank with positive extents: broadcast_shape (2-ary loop and variadic fold) succeeds iff the shapes are NumPy-compatible and then is the per-axis maximum; commutativity, associativity (Option/bind), idempotence, absorption, scalar identity; n-ary fold invariant under any permutation and any split/grouping of the operand list; shape_broadcast_to succeeds iff NumPy allows it; the offset-over-origin-axes index map of broadcast_to equals the NumPy element rule and stays in bounds; broadcast_arrays never fails after a successful broadcast_shape; any nest of broadcast_shape calls (2-ary and variadic, maybe results passed on) depends only on WHICH operands occur in it, not on their order, grouping or multiplicity (bexpr_eval_congr); with zero extents allowed the implementation is NumPy unless an axis pairs 0 with 1 (known finding). Tied to the C++ by an exhaustive small-scope differential run (all pairs/triples of shapes, every element) and by a generated kind matrix (every pair / triple of shape container kinds incl. compile-time constant, clipped, fixed, bounded, dynamic, None; all operand orders and groupings; broadcast_to, broadcast_arrays, add; hook events on), both cross-checked against NumPy on every run.',
+    note='Lean kernel + propext/Classical.choice/Quot.sound; model hand-written (reversed-list recursion for the right-aligned loops), fidelity rests on the correspondence run; the theorems are kind-blind (List Nat for every container) — that the container kind does not matter is established by the kind matrix (finite: every kind pair / triple, sampled over shapes), not by a theorem about meta::resolve_optype; two operands that are both compile-time constants and incompatible do not compile (refusal at compile time; such clauses are printed as nothing without being run); positive extents as in the property (zero extents: bounded scope against NumPy, one known finding).',
     technique='Lean 4 induction proofs over List Nat shapes + differential correspondence (exhaustive small scope) + NumPy oracle')
 ASSUMPTIONS = ['extents are positive (the property\'s quantifier); with a zero extent the implementation\'s max differs from NumPy and is outside the claim',
                'size_t arithmetic does not wrap (products of the explored shapes are far below 2^32)',
-               'compile-time-constant and clipped shape kinds are covered by C09/C11, not here']
-PARTIAL = []
+               'kind matrix: a clause whose two operands are BOTH compile-time-constant shapes and incompatible is refused by the compiler (BROADCAST_SHAPE_ERROR); it is printed as `nothing` by the generator and not executed',
+               'kind matrix: one STL build with g++ (-O0); the NMTOOLS_DISABLE_STL / clang builds of the kind machinery are C09',
+               'the None shape (shape of a number) is the empty shape; the free-axes entry None of shape_broadcast_to(None, .) means every axis is free']
+PARTIAL = ['independence of the container kind is validated by the generated kind matrix (finite in kinds, sampled in shapes), not proved: there is no Lean model of meta::resolve_optype<broadcast_shape_t> (which result container / which clipped bounds are chosen)']
 
 # The model MIRRORS the two open known findings (known/C06.json) so that the defect class itself is under the
 # correspondence run.  When the repair is applied to /repo, set the switch to False (the class is then judged by NumPy
 # and, for the None source, by the kind-blind model) and close the known finding:
 #   fixes/C06-sbt-none-clipped-target.diff -> MIRROR_NONE_CLIPPED = False
 #   fixes/C06-broadcast-zero-extent.diff   -> MIRROR_ZERO_WITH_ONE = False  (bc1 = max stays the model of positive extents)
-MIRROR_NONE_CLIPPED = True
-MIRROR_ZERO_WITH_ONE = True
+# (the environment variables let the repaired tree be tried before the switch is committed)
+MIRROR_NONE_CLIPPED = os.environ.get('C06_MIRROR_NONE_CLIPPED', '1') == '1'
+MIRROR_ZERO_WITH_ONE = os.environ.get('C06_MIRROR_ZERO_WITH_ONE', '1') == '1'
 
 
 def k_parse(req):
@@ -404,6 +430,13 @@ def k_mreq(c):
                                                ';'.join(fmt(p) for _, _, p in cl), ','.join(n for n, _, _ in cl))
 
 
+def k_mreq_kinded(c):
+    cl = c.clauses()
+    bounds = ';'.join(fmt(k_bounds(c, j)) if k == 'cl' else '[]' for j, k in enumerate(c.kinds))
+    return 'kexprk shapes=%s terms=%s kinds=%s bounds=%s' % (fmt_lists(c.shapes), ','.join('%s:%s' % (n, G.prefix(e)) for n, _, e in cl),
+                                                            ','.join(c.kinds), bounds)
+
+
 def kgen(tier):
     cases, tus = kplan(tier)
     for name, cs in tus.items():
@@ -417,6 +450,12 @@ def kgen(tier):
             if MIRROR_NONE_CLIPPED and c.op == 'sbt' and kf_none_source_clipped_target(case):
                 case.dom = False       # known-defect region: the model (ksbt) mirrors the clamp, NumPy is the judge
             yield case
+            if c.op in ('bs2', 'bs3'):
+                # the same clauses as `value@container`: IMPL against the Lean model of meta::resolve_optype<broadcast_shape_t>
+                # (NmVerif.resolveBroadcast / BExpr.keval).  No NumPy verdict here (the values are judged by the request above):
+                # a difference means the resolver model no longer mirrors the code.
+                yield Case('k6t id=%s %s' % (c.key, c.text()), name, dom=False, oracle=None, mreq=k_mreq_kinded(c), nontrivial=False,
+                           tags=['kinds', 'k:containers'])
 
 
 # ---------------------------------------------------------------------------------------------- generator
